@@ -157,6 +157,7 @@ type Summary struct {
 	MaxDepth    int
 	PathLimitHit bool
 	StatusCount map[string]int
+	MoreViol    []string
 }
 
 type ExploreOpts struct {
@@ -265,6 +266,8 @@ func (p *Pool) explore(harness string, params map[string]int, opt ExploreOpts) *
 					if !violSeen[key] {
 						violSeen[key] = true
 						sum.Viol = append(sum.Viol, v)
+					} else if sum.ViolCount[key] <= 8 {
+						sum.MoreViol = append(sum.MoreViol, fmt.Sprintf("%s %q inputs=%v", v.Kind, v.Label, v.Inputs))
 					}
 				}
 				if opt.MaxPaths > 0 && sum.Paths+sum.Dead >= opt.MaxPaths && len(stack) > 0 {
@@ -349,6 +352,9 @@ func (s *Summary) String() string {
 	}
 	for _, v := range s.Viol {
 		fmt.Fprintf(&sb, "\n   VIOL %s %q known=%q x%d inputs=%v msg=%s where=%s", v.Kind, v.Label, v.Known, s.ViolCount[v.Kind+"|"+v.Label+"|"+v.Known], v.Inputs, v.Msg, v.Where)
+	}
+	for _, m := range s.MoreViol {
+		fmt.Fprintf(&sb, "\n      also: %s", m)
 	}
 	for gw, n := range s.GlobalWrites {
 		fmt.Fprintf(&sb, "\n   GLOBAL-WRITE %s x%d", gw, n)
